@@ -12,6 +12,7 @@ import ast
 from ..program import AnalysisError, Inconclusive, ClassInfo
 from ..values import App, Const, Sym, walk
 from ..effects import Effects
+from ..fields import subformula_field, bool_value_field
 from ..report import Finding, RuleResult, floor, Attempts, adopt
 
 PROP = 'C07'
@@ -77,9 +78,11 @@ def rule_pure1(prog, E):
     r.notes.append('mutating methods of DiGraph/Kripke found: %s' % muts)
     floor('R-PURE-1', 'mutating graph methods recognised', len(muts), 4)
     reach = E.reachable([prog.func(e).qn for e in ENTRIES])
-    ext = [q for q in reach if E.summ[q].fi.owner is None and any(
-        E.summ[q].pnames[p] in ('kripke', 'K', 'kripkeC')
-        for p in E.summ[q].mutates if p < len(E.summ[q].pnames))]
+    # module-level routines of the checkers that modify one of their
+    # parameters (whatever it is called): they must be handed a clone
+    ext = [q for q in reach if E.summ[q].fi.owner is None and
+           E.summ[q].fi.module.name.endswith('model_checking') and
+           any(p < len(E.summ[q].pnames) for p in E.summ[q].mutates)]
     r.notes.append('functions that modify a Kripke parameter (must receive '
                    'a clone): %s' % sorted(E.summ[q].fi.short() for q in ext))
     undecided = None
@@ -170,7 +173,7 @@ def rule_pure3(prog, E):
             # formula classes and functions outside the BDD package matter
             owner_ok = s.fi.owner is None or s.fi.owner.is_subclass_of(
                 prog.cls('language.Formula')) or name in (
-                    '_subformula', '_value')
+                    subformula_field(prog), bool_value_field(prog))
             r.inst(function=s.fi.short(), write='%s %s' % (kind, name),
                    touches=touches, in_constructor=in_ctor, where=where)
             if in_ctor or (kind == 'setattr' and not owner_ok):
